@@ -3,8 +3,16 @@ open PubModel.C10
 #print axioms cache_inv
 #print axioms exec_matches_digest
 #print axioms reachW_cinv
+#print axioms incremental_eq_clean
+#print axioms clean_succeeds_of_incremental
+#print axioms clean_fails_incremental_fails
 #print axioms incremental_eq_clean_partial
+#print axioms incremental_eq_clean_current_tree
 #print axioms null_build_executes_nothing
+#print axioms rebuilds_exactly_dependents
+#print axioms executed_iff_invalid
+#print axioms digest_eq_cone_eq
+#print axioms digest_changed_of_cone_changed
 #print axioms rebuilds_only_dependents
 #print axioms digest_unchanged
 #print axioms failed_never_cached
